@@ -270,3 +270,32 @@ Proof.
   destruct (Z.eqb_spec k 0); cbn [orb]; [reflexivity|].
   destruct (Z.leb_spec Bits.Spec.Secp256k1.n k); destruct (Z.ltb_spec k Bits.Spec.Secp256k1.n); try lia; reflexivity.
 Qed.
+
+(* the `bits hd` subcommand (Model cli_hd): stdout is derive_from_path (then get_xpub with --xpub, then a newline with
+   -P), and the --dump fields are exactly the deserialisation of the key that is emitted *)
+Lemma cli_hd_spec p a b n G hm sha rip path x xp du pr out d :
+  cli_hd p a b n G hm sha rip path x xp du pr = Ok (out, d) ->
+  exists y, bind (derive_from_path p a b n G hm sha rip path x)
+                 (fun y0 : bytes => if xp then get_xpub p a b n G sha y0 else Ok y0) = Ok y /\
+            out = (if pr then y ++ [x0a] else y) /\
+            (if du then exists f, d = Some f /\ deserialized_extended_key p a b n sha y = Ok f else d = None).
+Proof.
+  unfold cli_hd. intros H.
+  destruct (derive_from_path p a b n G hm sha rip path x) as [y0|e]; cbn [bind] in *; [|discriminate].
+  destruct (if xp then get_xpub p a b n G sha y0 else Ok y0) as [y|e]; cbn [bind] in *; [|discriminate].
+  exists y. split; [reflexivity|]. destruct du.
+  - destruct (deserialized_extended_key p a b n sha y) as [f|e]; cbn [bind] in H; [|discriminate].
+    injection H as <- <-. split; [reflexivity|]. exists f. auto.
+  - cbn [bind] in H. injection H as <- <-. auto.
+Qed.
+
+(* and it refuses (no output) exactly when the derivation, the conversion or the re-deserialisation refuses *)
+Lemma cli_hd_refuses p a b n G hm sha rip path x (xp du pr : bool) e :
+  bind (derive_from_path p a b n G hm sha rip path x)
+       (fun y0 : bytes => if xp then get_xpub p a b n G sha y0 else Ok y0) = Err e ->
+  cli_hd p a b n G hm sha rip path x xp du pr = Err e.
+Proof.
+  unfold cli_hd. destruct (derive_from_path p a b n G hm sha rip path x) as [y0|e0]; cbn [bind]; [|intros H; injection H as ->; reflexivity].
+  destruct (if xp then get_xpub p a b n G sha y0 else Ok y0) as [y|e1]; cbn [bind]; intros H;
+    [discriminate H|injection H as ->; reflexivity].
+Qed.
